@@ -21,7 +21,7 @@ Ev == Trace[l]
 Verdict(v) == /\ skip' = (v # "ok" /\ nbad >= 40 * nbeh) /\ nbad' = IF v # "ok" THEN nbad + 1 ELSE nbad
               /\ (v # "ok" => PrintT(<<"TRACE-BAD", l, nbeh, v>>))
 
-TNew == /\ Ev.ev = "New" /\ s' = [SM!InitSig(Ev.expect) EXCEPT !.pipe = (Ev.pipelined = 1)] /\ nbeh' = nbeh + 1 /\ skip' = FALSE /\ UNCHANGED nbad
+TNew == /\ Ev.ev = "New" /\ s' = [SM!InitSig(Ev.expect) EXCEPT !.pipe = (Ev.pipelined = 1), !.maxage = IF "maxage" \in DOMAIN Ev THEN Ev.maxage ELSE <<>>] /\ nbeh' = nbeh + 1 /\ skip' = FALSE /\ UNCHANGED nbad
 TSent == /\ Ev.ev = "sent" /\ s' = SM!OnSent(s, Ev.c, Ev.m) /\ Verdict("ok") /\ UNCHANGED nbeh
 TRecv == /\ Ev.ev = "recv"
          /\ LET r == SM!OnRecv(s, Ev.c, Ev.m) IN s' = r.s /\ Verdict(r.v)
